@@ -150,7 +150,7 @@ obl('C13.DONTWAIT', 'pipe::wake', 'Send => send(.., MSG_DONTWAIT); Write => writ
 obl('C13.DELIVERY-NONBLOCKING', 'pipe::register_raw + WakeFd::set_flags', 'method fits the descriptor kind: send+MSG_DONTWAIT only on sockets, write only after fcntl(F_SETFL, ..|O_NONBLOCK) succeeded, before register is reached', also=['C03'])
 obl('C13.REJECT-INVALID', 'pipe::register_raw', 'invalid fd (send/fcntl fail with EBADF) => Err, register never reached')
 obl('C13.CLOSE-ON-ERR', 'pipe::register_raw', 'fcntl failure => Err, no write, fd closed once')
-obl('C13.CLOSE-ONCE', 'WakeFd::drop', 'exactly one close(fd), as the last event, when the action is dropped')
+obl('C13.CLOSE-ONCE', 'WakeFd::drop, pipe::register_raw', 'exactly one close(fd), as the last event, when the action is dropped or the registration is rejected on any path (also when a libc call of the front-end itself fails)', also=['C14'])
 obl('C13.REGISTER-ONCE', 'pipe::register_raw', 'exactly one registry registration', also=['C14'])
 obl('C14.PIPE-RELEASE', 'pipe::register_raw', 'forbidden signal: the action handed to the registry owns the fd; dropping it closes the fd exactly once')
 obl('C14.PIPE-NO-PANIC', 'pipe::register_raw, pipe::register', 'no panic inside the pipe front-end itself for any input (refusal happens in the registry, after the fd has an owner)')
@@ -314,7 +314,7 @@ UNITS['backend_small_c12'] = dict(
     rewrite=[('src/iterator/backend.rs', r'const MAX_SIGNUM: usize = 128;', 'const MAX_SIGNUM: usize = 4;', 1)],
     scan=[K + 'libc_model.rs'], timeout={'quick': 1500, 'thorough': 3600},
     harnesses={
-        'c12_add_and_drop': dict(props=['C12', 'C14'], kind='bounded', bound=_SMALL),
+        'c12_add_and_drop': dict(props=['C12', 'C14', 'C10'], kind='bounded', bound=_SMALL),
         'c12_retry_raw_small': dict(props=['C12'], kind='bounded', bound=_SMALL, panic_map=[(r'Init called multiple times', 'C12.RETRY')]),
         'c12_ctor_clean': dict(props=['C12'], kind='bounded', bound=_SMALL),
     })
@@ -346,7 +346,7 @@ obl('C12.ERR-PASSTHROUGH', FB + 'Handle::add_signal', 'Err iff registration fail
 obl('C12.REGISTER-ONCE', FB + 'Handle::add_signal', 'one registration attempt through the checked registry entry point, for the requested number', also=['C14'])
 obl('C12.RETRY', FB + 'Handle::add_signal + exfiltrator/raw.rs: WithRawSiginfo::init', 'after Err the same add_signal again behaves like a first call (no "Init called multiple times" panic)')
 obl('C12.IDEMPOTENT', FB + 'Handle::add_signal', 're-adding a watched signal: Ok, no registration')
-obl('C12.ATOMIC-ADD', FB + 'Handle::add_signal', 'the id-table mutex is held while the registry is asked to register (lookup and store are one critical section)', kind='bounded(table/representative signal)')
+obl('C12.ATOMIC-ADD', FB + 'Handle::add_signal', 'the id-table mutex is held while the registry is asked to register (lookup and store are one critical section)', kind='bounded(table/representative signal)', also=['C10'])
 obl('C12.TABLE-RELEASED', FB + 'Handle::add_signal', 'table lock free on return', kind='bounded(table/representative signal)')
 obl('C12.DROP-ALL', FB + 'DeliveryState::drop', 'unregister called exactly for the ids recorded, once each')
 obl('C14.ITER-REFUSE', FB + 'Handle::add_signal', 'never returns normally for negative / >= 128 / forbidden numbers (all c_int)', never=True)
@@ -355,7 +355,7 @@ _TI = L('A3', 'A4', 'A5', 'A7', 'A8', 'A10', 'A12')
 PROPS['C09'] = dict(level='other', units=['backend_small', 'backend'], trusted=_TI + ['"obtains it at least once" / "never parked with an unreported signal and no wake-up outstanding" is a liveness/whole-history statement: lemma L-PIPE over the proved ordering obligations + kernel socket semantics, not machine-checked'],
     technique='ordering obligations (store-then-wake, drain-then-scan, scan-all) as trace contracts on the real backend.rs, Kani/CBMC',
     explanation='Proved: the action stores then wakes; the consumer drains then scans every slot from 0; poll_signal maps callback answers faithfully. The no-lost-wakeup theorem over these is argued in DESIGN.md.')
-PROPS['C10'] = dict(level='proof', units=['backend', 'backend_small', 'channel'], trusted=_TI + ['counting argument yields <= clears <= sets <= deliveries composed from the per-operation contracts (DESIGN.md C10)', 'info-carrying exfiltrators: at-most-once and order are the channel contracts C06/C07; faithful copy checked in unit backend_raw'],
+PROPS['C10'] = dict(level='proof', units=['backend', 'backend_small', 'channel', 'backend_small_c12'], trusted=_TI + ['counting argument yields <= clears <= sets <= deliveries composed from the per-operation contracts (DESIGN.md C10)', 'info-carrying exfiltrators: at-most-once and order are the channel contracts C06/C07; faithful copy checked in unit backend_raw'],
     explanation='Per-operation contracts: a delivery only sets its own slot; load clears atomically and echoes the slot index; next() yields exactly the first marked slot.')
 PROPS['C11'] = dict(level='proof', units=['backend', 'backend_small'], trusted=_TI + ['a blocked reader returns because close() writes a wake-up byte (kernel semantics)', 'callback answers true at most once per call in the harness (bounded)'],
     explanation='closed flag havoc-ed monotonically before every load (close() on another thread at any instant); sticky flag, close-then-wake, no callback after closed, Pending only if armed.')
